@@ -239,6 +239,7 @@ def build():
     lem = [Lemma("any_anc-concat", [("base", aa_base), ("step", aa_step)], ["C07"]),
            Lemma("all_in_tree-prefix", [("base", ai_base), ("step", ai_step)], ["C07"])]
     world.trusted_notes.append('findall: the dict used as ordered set (position key -> info) is abstracted as the sequence of its values, with an obligation key == inserted info at every insertion; id(x) is modelled as x itself')
+    world.trusted_notes.append('xp_elements(x) is the reverse of xp_elements_reversed(x): postcondition of ASTXpath.__init__ (contracts.defn_errors_area), not restated as an axiom here because no contract of this area needs it; the agreement of the two searches stays with rt.c07')
     world.trusted_notes.append('XPathTransformer.xpath: reversed(args) is a stateful iterator over rev_steps(args) shared by the for loop and next()')
     world.trusted_notes.append('legacy matcher: parent / parent_field / parent_index / ancestors() are functions of the node for the duration of a match (l_parent, l_chain)')
     return world, lib, reg, lem + lem_legacy
